@@ -60,13 +60,13 @@ def parse_console(out):
     """the last 'Result' block of the console listener's output -> event fields, or None"""
     i = out.rfind("Result")
     if i < 0:
-        return None
+        return None                      # no final report at all
     blk = out[i:]
     d = {}
     for k, rx in RESULT_RE.items():
         m = re.search(rx, blk)
         if not m:
-            return None
+            return "unparsed"            # a report is there but not in the layout this parser knows: not judged (noted)
         d[k] = m.group(1)
 
     def num(s):
@@ -177,7 +177,10 @@ def run(ctx):
                     ev = parse_console(out)
                     if ev is None:
                         ev = {"ev": "cb", "kind": "console", "gtr": -1, "ltr": -1, "point": [], "value": "0", "acc": "0"}
-                    run.emit(ev)
+                    if ev == "unparsed":
+                        ctx.notes.append("console report present but not in the known layout: not compared (%s)" % "+".join(labels))
+                    else:
+                        run.emit(ev)
                 meta = {"listener": labels, "n": n, "pattern": pat, "recording_listener_attached": "after" if first else "before"}
                 pairs.add("SameTrials", "equal", seq_of(run), seq_of(refrun), meta)
                 pairs.add("SameResult", "equal", result_of(run), result_of(refrun), meta)
